@@ -23,11 +23,12 @@ type srcRenderer struct {
 	// how the API is referred to in coMode: "" for a dot import, "co." etc.
 	api string
 	// names of the key / value variables of the enclosing range loops (innermost last)
-	kv   [][2]string
-	form string // declaration form of generators in coMode: "" (function) | method | generic | lit | nestedlit
-	fn   string // name of the function being rendered (package-level helper names derive from it)
-	box  bool   // element type *rt.Box instead of int
-	boxV bool   // ... element type rt.BoxV (a struct VALUE: the yielded expression is a composite literal)
+	kv        [][2]string
+	form      string // declaration form of generators in coMode: "" (function) | method | generic | lit | nestedlit
+	fn        string // name of the function being rendered (package-level helper names derive from it)
+	box       bool   // element type *rt.Box instead of int
+	plainVars bool   // co packages: the package-level function variable of odd-numbered programs is declared in plain.go
+	boxV      bool   // ... element type rt.BoxV (a struct VALUE: the yielded expression is a composite literal)
 }
 
 func (sr *srcRenderer) kvName(n string) string {
@@ -654,11 +655,26 @@ func pkgVars(prog []any, fn string) string {
 	return ""
 }
 
+// inPlainFile: the variable of this program is declared in the ordinary file plain.go of its package
+// (identifiers of non-co files are not resolved when the optimiser type-checks the staged files).
+func inPlainFile(fn string) bool {
+	n := 0
+	fmt.Sscanf(strings.TrimLeft(fn, "BG"), "%d", &n)
+	return n%2 == 1
+}
+
+func (sr *srcRenderer) pkgVarsOf(prog []any, fn string) string {
+	if sr.plainVars && inPlainFile(fn) {
+		return ""
+	}
+	return pkgVars(prog, fn)
+}
+
 // byFunc renders a bystander: a plain function (no yield) of a processed file.
 func (sr *srcRenderer) byFunc(name string, prog []any) string {
 	sr.fn = name
 	body := sr.block(prog, "\t")
-	return fmt.Sprintf("func %s(r *rt.Rec, a, b int) int {\n%s%s\treturn a\n}\n%s", name, optProlog(prog, name), body, pkgVars(prog, name))
+	return fmt.Sprintf("func %s(r *rt.Rec, a, b int) int {\n%s%s\treturn a\n}\n%s", name, optProlog(prog, name), body, sr.pkgVarsOf(prog, name))
 }
 
 // genFunc renders one generator function named name.
@@ -687,7 +703,7 @@ func (sr *srcRenderer) genFunc(name string, prog []any, trailing string) string 
 	if usesKind(prog, "pullit") || usesKind(prog, "yfromit") || iterRange {
 		prolog += "\tit := D2(r, 3, b)\n\t_ = it\n"
 	}
-	tailDecl := pkgVars(prog, name)
+	tailDecl := sr.pkgVarsOf(prog, name)
 	uk := unsupKind(prog)
 	if uk == "rparr" || uk == "clo-rparr" || uk == "rparrdefer" {
 		prolog += "\tuarr := [3]int{10, 20, 30}\n"
